@@ -2,6 +2,7 @@ package checks
 
 import (
 	"fmt"
+	"regexp"
 	"runtime"
 	"strings"
 	"sync"
@@ -46,6 +47,7 @@ func (c19) Assumptions() []string {
 
 func (c19) Gates(tier string, m map[string]int64) []rt.Gate {
 	return []rt.Gate{
+		rt.GateMin("rounds in which every goroutine runs the same statement text first", m, "rounds_with_a_common_statement", 20),
 		rt.GateMin("stores whose handed-out memory was checked for damage afterwards", m, "arenas_checked", 100),
 		rt.GateMin("max statements in flight at the same time", m, "max:in_flight", 2),
 		rt.GateMin("rounds with overlapping executions", m, "overlapping_rounds", 20),
@@ -99,6 +101,10 @@ func c19Statements(r *rt.Rand, p string, n int, mutable bool) []string {
 		"select quantile(float(value), 0.5), count(1) where key ^= '%[1]s'",
 		"select * where key = '%[1]s001' | key = '%[1]s002'",
 		"select * where false & key ^= '%[1]s'",
+		// function names written in back quotes and mixed case (resolved case-insensitively at run time)
+		"select `upper`(key), `lower`(value), `cosine_distance`(`float_list`(1, 2), `float_list`(`strlen`(key), 2)) where key ^= '%[1]s'",
+		"select key where key ^= '%[1]s' & `is_int`(value) & `strlen`(value) > 0",
+		"select `l2_distance`(`int_list`(1, 2, 3), `int_list`(`strlen`(key), 2, 3)), `is_float`(value) where key ^= '%[1]s' limit 5",
 		// concatenations whose left operand is a slice handed out by the storage
 		"select key + '_%[1]s', value + '/' + key where key ^= '%[1]s'",
 		"select key where key ^= '%[1]s' & value + '%[1]s' != 'g1%[1]s'",
@@ -156,6 +162,30 @@ func c19Exec(q string, st kvql.Storage, batch bool) c19Out {
 	return out
 }
 
+var c19Spell uint64 // process-wide counter: every respelling is new to this process
+
+var c19QuotedFn = regexp.MustCompile("`[A-Za-z_0-9]+`\\(")
+
+// c19Respell gives every back-quoted function name of q a letter-case pattern that this
+// process has not used yet (function names are resolved case-insensitively, so the statement
+// means the same; what the library remembers per spelling is then first touched concurrently).
+func c19Respell(q string) string {
+	return c19QuotedFn.ReplaceAllStringFunc(q, func(m string) string {
+		n := atomic.AddUint64(&c19Spell, 1)
+		b := []byte(strings.ToLower(m))
+		bit := 0
+		for i := range b {
+			if b[i] >= 'a' && b[i] <= 'z' {
+				if n>>uint(bit)&1 == 1 {
+					b[i] -= 32
+				}
+				bit++
+			}
+		}
+		return string(b)
+	})
+}
+
 func (k c19) Run(c *rt.Ctx) {
 	r := c.R
 	rec := c.Rec
@@ -187,6 +217,22 @@ func (k c19) Run(c *rt.Ctx) {
 		}
 		plans[g] = p
 		all = append(all, c19Data(p.prefix, r.Range(10, 40))...)
+	}
+	if storeMode == "shared-readonly" && r.Chance(2, 3) {
+		// the very same statement text in every goroutine, first in line (they start together):
+		// anything the library keeps per query text or per function spelling is then shared
+		common := []string{
+			"select substr(value, 0, 1) as g, sum(strlen(key) + strlen(value)) as s, count(1) as c where key ^= 'g0_' group by g order by g",
+			"select value, sum(strlen(value)) as s where key ^= 'g0_' group by value",
+			"select key, upper(value) as u where key ^= 'g0_' & u != 'G1' order by u, key limit 7",
+			"select count(1), max(key), min(value) where key ^= 'g0_' & value != 'zz'",
+		}
+		c1, c2 := common[r.Intn(len(common))], common[r.Intn(len(common))]
+		for _, p := range plans {
+			p.stmts = append([]string{c1, c2}, p.stmts...)
+			p.batch = append([]bool{r.Bool(), r.Bool()}, p.batch...)
+		}
+		rec.Inc("rounds_with_a_common_statement")
 	}
 	// solo outcomes, sequentially, before any goroutine starts
 	newStoreFor := func(p *gplan) *refstore.Store {
@@ -257,6 +303,9 @@ func (k c19) Run(c *rt.Ctx) {
 						break
 					}
 				}
+				if strings.Contains(q, "`") {
+					q = c19Respell(q)
+				}
 				p.got = append(p.got, c19Exec(q, st, p.batch[i]))
 				atomic.AddInt64(&running, -1)
 			}
@@ -291,6 +340,10 @@ func (k c19) Run(c *rt.Ctx) {
 			rec.Eval(1)
 			rec.Inc("compared")
 			a, b := p.solo[i], p.got[i]
+			if strings.Contains(p.stmts[i], "`") {
+				// respelled in the concurrent round: the texts that show the spelling are not compared
+				a.expl, b.expl, a.render, b.render = "", "", "", ""
+			}
 			if a != b {
 				what := "rows"
 				switch {
